@@ -1,10 +1,12 @@
 pub mod array_bfs;
 pub mod c01;
 pub mod c05;
+pub mod c13;
+pub mod recv;
 pub mod elem;
 
 use crate::engine::Prop;
 
 pub fn all() -> Vec<&'static dyn Prop> {
-    vec![&c01::C01, &c05::C05]
+    vec![&c01::C01, &c05::C05, &c13::C13]
 }
